@@ -237,7 +237,10 @@ def contract_driver(program, c, findings=()):
         exc = None
         result = None
         try:
-            result = it.call_function(target, [vals[k] for k in order], dict(c.call_kwargs), force_inline=True)
+            kws = dict(c.call_kwargs)
+            for k in c.kw:
+                kws[k] = vals[k]
+            result = it.call_function(target, [vals[k] for k in order if k not in c.kw], kws, force_inline=True)
         except PyRaise as e:
             if e.type_name == "SpecUnreachable":
                 raise Unsupported("spec reached unreachable()")
